@@ -62,11 +62,12 @@ def main(tier, replay=None):
     # function whose source changed since the pin (c.drift) raises the budget and the multiplicity.
     # thorough: every call index of every operation + the uniform pairs (k <= 3, 2 <= d <= 6), then the
     # guided plans with multiplicity 4 on 64 further histories
-    quota, mult = (20, 2) if not c.escalated else (36, 3)
+    # (every single-fault target in `mult` histories, every second-fault target of a repair path in `mult2`)
+    quota, mult, mult2, legacy = (16, 2, 1, 2) if not c.escalated else (36, 3, 2, 2)
     if tier == "quick":
-        passes = [args + ["-guided", "-quota", str(quota), "-mult", str(mult)]]
+        passes = [args + ["-guided", "-quota", str(quota), "-mult", str(mult), "-mult2", str(mult2), "-legacy", str(legacy)]]
     else:
-        quota, mult = 44, 4
+        quota, mult, mult2 = 44, 4, 4
         out2 = os.path.join(c.workdir, "impl2.txt")
         passes = [args + ["-all", "-pairs", "3"],
                   [outs[0], "-n", "64", "-first", "1000", "-out", out2, "-j", str(jobs), "-guided", "-quota", str(quota), "-mult", str(mult)]]
@@ -236,7 +237,8 @@ def main(tier, replay=None):
                 "and the guided plans on 64 further histories), each target in up to `mult` histories (again, in a plan of its own, when a plan aimed at it and missed); the NewAddress that follows a faulted operation on the same wallet runs undisturbed and is compared with the twin's. "
                 "distinct_nontrivial = distinct (history, plan, kinds of the failing calls). " + stats,
         "fault_target_coverage": tcov,
-        "budget": {"guided_runs_per_history_at_most": quota, "multiplicity": mult, "escalated_by_model_source_drift": bool(c.escalated)},
+        "budget": {"guided_runs_per_history_at_most": quota, "multiplicity": mult, "multiplicity_of_second_fault_targets": mult2,
+                   "escalated_by_model_source_drift": bool(c.escalated)},
         "observer_newaddress": {"histories": observers[0], "histories_with_newaddress_of_restored_wallet_after_import": observers[1],
                                 "newaddress_calls_following_an_operation_on_their_wallet": observers[2]},
         "histories": len(scripts),
